@@ -142,6 +142,15 @@ class MessageManager(interfaces.TokenInterface, interfaces.MessageManager):
                 messageerror_monitor, handle = entry
                 handle.cancel()
                 messageerror_monitor()
+                # (as with a Reset to a confirmable notification: nothing
+                # that is held back for the same observation goes out later)
+                backlog = self._backlogs.get(message.remote)
+                if backlog:
+                    backlog[:] = [
+                        (m, monitor)
+                        for (m, monitor) in backlog
+                        if monitor is not messageerror_monitor
+                    ]
 
         if message.code is EMPTY and message.mtype is CON:
             self._process_ping(message)
@@ -602,6 +611,17 @@ class MessageManager(interfaces.TokenInterface, interfaces.MessageManager):
             self.log.debug("Message to %s put into backlog", message.remote)
             self._backlogs[message.remote].append((message, messageerror_monitor))
         else:
+            if message.code.is_response() and message.mtype is NON:
+                # Not held back itself, it would overtake (and then be followed
+                # by) older responses on its token that still wait for their
+                # turn behind an unacknowledged message: it supersedes them
+                backlog = self._backlogs.get(message.remote)
+                if backlog:
+                    backlog[:] = [
+                        (m, monitor)
+                        for (m, monitor) in backlog
+                        if not (m.code.is_response() and m.token == message.token)
+                    ]
             self._send_initially(message, messageerror_monitor)
 
         if piggybacked is not None:
